@@ -13,7 +13,7 @@ from .. import gen
 
 TRANSLATOR = os.path.join(ROOT, 'harness', 'translate', 'py2gallina_c17.py')
 GEN_FILE = 'DensityReuseGen.v'
-GEN_CHAIN = ['Base/PyC17.v', 'Gen/DensityReuseGen.v', 'Proofs/GenDensityReuseEq.v', 'Proofs/GenDensityReuseEq2.v', 'Props/C17gen.v']
+GEN_CHAIN = ['Base/PyC17.v', 'Gen/DensityReuseGen.v', 'Proofs/GenDensityReuseEq.v', 'Proofs/GenDensityReuseEq2.v', 'Proofs/GenDensityReuseEq3.v', 'Props/C17gen.v']
 EXTRA_PROPS = ('C17gen',)
 ASSUMPTION = gen.ASSUMPTION + (
     '; C17 front end (py2gallina_c17.py): three STATEMENT BLOCKS are cut out of the ASTs of DensityEstimation.__init__ (self.data_bins = '
@@ -27,7 +27,7 @@ ASSUMPTION = gen.ASSUMPTION + (
     'translated as well - dictionaries as association lists keyed by the int tuples max_levels instead of the strings str(max_levels), '
     'attribute paths as names, D.keys() as D.items(), a read-only alias inlined, float membership / index through coq/Base/PyC17.v, the '
     'nested-list append as a local row; `Ret Some x` of the shared renderer is re-parenthesised; post_processing is proved equal to Model.post, '
-    'find_closest_old_B is generated and type-checked on every run but its equivalence with Model.find_closest is not proved yet')
+    'find_closest_old_B is proved equal to Model.find_closest (phase 5)')
 
 
 def regenerate(chk):
